@@ -290,6 +290,20 @@ func runC18Rate(t *testing.T, seed uint64, m *Mask, opt world.Options, proto str
 			total = min
 		}
 	}
+	// an update that changes nothing but the interval, and a caller that keeps asking after the update: the rate
+	// in force is the limit per second, whatever the refill rhythm
+	sustained := false
+	{
+		r2 := simrt.NewRand(simrt.Mix(seed, 1801))
+		if update && interval2 != interval && r2.Chance(0.5) {
+			limit2 = limit1
+			if limit2 > 40 {
+				limit2 = 40
+			}
+			limit1 = limit2
+		}
+		sustained = update && r2.Chance(0.5)
+	}
 	perSec2 := int32(time.Second / interval2)
 	nBursts := 2 + r.Intn(5)
 	type burst struct {
@@ -299,6 +313,18 @@ func runC18Rate(t *testing.T, seed uint64, m *Mask, opt world.Options, proto str
 	var bursts []burst
 	for i := 0; i < nBursts; i++ {
 		bursts = append(bursts, burst{time.Duration(r.Intn(int(total))), 1 + r.Intn(int(limit1)+10)})
+	}
+	if sustained {
+		settle := 2 * interval
+		if interval2 > interval {
+			settle = 2 * interval2
+		}
+		for k := 0; k < 8; k++ {
+			bursts = append(bursts, burst{updateAt + settle + time.Duration(k)*interval2 + interval2/2, int(limit2)/2 + 3})
+		}
+		if min := updateAt + settle + 10*interval2; total < min {
+			total = min
+		}
 	}
 	rep := &Report{NOps: len(bursts)}
 	rep.Cell = fmt.Sprintf("rate,%s,interval=%v,limit=%d,handler=%d,update=%v->%d/%v@%v", proto, interval, limit1, handlerLimit, update, limit2, interval2, updateAt)
